@@ -13,6 +13,7 @@ import MTfitVerif.Model.Proposal
 import MTfitVerif.Model.Chain
 import MTfitVerif.Model.Potency
 import MTfitVerif.Model.JobPool
+import MTfitVerif.Model.RandomMT
 /- dispatch table of the executable model -/
 namespace MTfitVerif.Driver
 open MTfitVerif Proto
@@ -519,7 +520,18 @@ def opJobPool : P String := do
     " ".intercalate (s.collected.reverse.map toString) ++ s!" {s.skipped.length} " ++
     " ".intercalate (s.skipped.reverse.map toString) ++ s!" {s.workers.length} " ++ " ".intercalate (s.workers.map st))
 
+open Convert in
+/-- `random mt v6 | dc a x | clvd u a x` → six-vector -/
+def opRandom : P String := do
+  let k ← tok
+  match k with
+  | "mt" => do let v ← flts 6; done; pure (oV6 (RandomMT.randomMt ⟨v[0]!, v[1]!, v[2]!, v[3]!, v[4]!, v[5]!⟩))
+  | "dc" => do let a ← pV3; let x ← pV3; done; pure (oV6 (RandomMT.randomType RandomMT.dcDiag a x))
+  | "clvd" => do let u ← flt; let a ← pV3; let x ← pV3; done; pure (oV6 (RandomMT.randomType (RandomMT.clvdDiag u) a x))
+  | _ => pure "bad-op:random"
+
 def table : List (String × P String) := [
+  ("random", opRandom),
   ("jobpool", opJobPool),
   ("conv", opConv),
   ("shift", opShift),
